@@ -9,6 +9,7 @@
   * §5  keys ↔ streams
   * §6  whole histories over the table: every key sees its own eager bucket
   * §7  keys of a history ↔ streams of the specification
+  * §8  one stream on its bucket; totality; shape of the outcome
 -/
 import QV.Model.Rrl
 import QV.Spec.Rrl
@@ -839,5 +840,193 @@ theorem keyTimes_eq_streamPast (rs : RandomState) {p : RrlParams} {v4len v6len :
     constructor
     · intro h; simp at h
     · intro h; exact absurd ⟨h.2, h.1.1⟩ hns
+
+theorem keyDecision_eq_specDecision (rs : RandomState) {p : RrlParams} {v4len v6len : Nat}
+    (hm : MasksOf p v4len v6len) (all past : List Req) (q : Req)
+    (hsub : ∀ x ∈ past, x ∈ all) (hq : q ∈ all) (hs : subjectToRrl q.ctx = true)
+    (hinj : HashInjectiveOn rs all) (hsrc : SourcesCanonical all) :
+    keyDecision rs p past q = specDecision (cfgOf p v4len v6len) past q := by
+  have hk : q.key? rs p = some (keyFn rs p q.ctx) := by simp [Req.key?, hs]
+  have hl : Spec.Rrl.Limitable q.toSpec := ((subject_iff q.ctx q.src q.now).mp hs).2
+  unfold keyDecision specDecision Spec.Rrl.shouldSend eagerVerdict
+  rw [hk]
+  simp only [hl, if_true, rateOf_spec]
+  rw [keyTimes_eq_streamPast rs hm all past q hsub hq hinj hsrc]
+  rfl
+
+/-- **Whole histories against the specification** (used by C26 and C27). -/
+theorem runAll_spec {rs : RandomState} {p : RrlParams} {v4len v6len : Nat} (hv : p.Valid)
+    (hm : MasksOf p v4len v6len) (T₀ : Nat) (reqs : List Req)
+    (hwf : AllWF reqs) (hmono : Mono T₀ reqs) (hsrc : SourcesCanonical reqs)
+    (hnc : NoBucketCollision rs p reqs) (hni : NoInitialKey rs p reqs) (hinj : HashInjectiveOn rs reqs) :
+    runAll rs (Rrl.new p T₀) reqs =
+      .ok (expectedFrom (specDecision (cfgOf p v4len v6len)) p [] reqs) := by
+  rw [runAll_refines hv reqs hwf hnc reqs [] (Rrl.new p T₀) T₀ rfl (inv_new rs p reqs T₀ hni) hmono]
+  congr 1
+  apply expectedFrom_congr
+  intro pre q post hr hs
+  apply keyDecision_eq_specDecision rs hm reqs _ q _ _ hs hinj hsrc
+  · intro x hx
+    rw [hr]
+    simp only [List.nil_append] at hx
+    exact List.mem_append_left _ hx
+  · rw [hr]; simp
+
+/-! ### §8 one stream on its bucket; totality -/
+
+/-- the critical section, run once per `(now, rnd)` on one bucket (no other key touches it) -/
+def bucketRun (p : RrlParams) (key : Key) (cat : Category) : Entry → List (Nat × Bool) → Out Empty (List Action)
+  | _, [] => .ok []
+  | e, (now, rnd) :: rest =>
+    match processBucket p key cat e now rnd with
+    | .ok (e', a) =>
+      (match bucketRun p key cat e' rest with
+       | .ok as => .ok (a :: as)
+       | .err x => nomatch x
+       | .panic => .panic)
+    | .err x => nomatch x
+    | .panic => .panic
+
+/-- times never decrease -/
+def MonoT : Nat → List (Nat × Bool) → Prop
+  | _, [] => True
+  | t, (now, _) :: rest => t ≤ now ∧ MonoT now rest
+
+def verdicts (p : RrlParams) : List (Nat × Bool) → List Bool → List Action
+  | (_, rnd) :: rest, d :: ds => verdict p rnd d :: verdicts p rest ds
+  | _, _ => []
+
+theorem bucketRun_rel {p : RrlParams} (hv : p.Valid) (key : Key) (cat : Category) :
+    ∀ (hist : List (Nat × Bool)) (e : Entry) (b : Spec.Rrl.Bucket) (tlast : Nat),
+      Rel (capOf p cat) key e b → e.last_refill ≤ tlast → MonoT tlast hist →
+      bucketRun p key cat e hist =
+        .ok (verdicts p hist (Spec.Rrl.Bucket.run (capOf p cat) (rateOf p cat) b (hist.map (·.1)))) := by
+  intro hist
+  induction hist with
+  | nil => intros; rfl
+  | cons h rest ih =>
+    obtain ⟨now, rnd⟩ := h
+    intro e b tlast hrel hle hmono
+    obtain ⟨e', hpb, hrel', hle'⟩ := processBucket_step hv key cat e b now rnd hrel (Nat.le_trans hle hmono.1)
+    simp only [bucketRun, hpb, ih e' _ now hrel' hle' hmono.2, List.map_cons, Spec.Rrl.Bucket.run, verdicts]
+
+/-- **One stream, any time pattern**: a bucket that holds another key (or is fresh) and then
+    sees only responses of one key decides exactly as the eager token bucket. -/
+theorem bucketRun_eager {p : RrlParams} (hv : p.Valid) (key : Key) (cat : Category) (e₀ : Entry)
+    (hne : e₀.key ≠ key) (hist : List (Nat × Bool)) (hmono : MonoT 0 hist) :
+    bucketRun p key cat e₀ hist =
+      .ok (verdicts p hist (Spec.Rrl.eager (capOf p cat) (rateOf p cat) (hist.map (·.1)))) := by
+  cases hist with
+  | nil => rfl
+  | cons h rest =>
+    obtain ⟨now, rnd⟩ := h
+    simp only [bucketRun, processBucket_create p key cat e₀ now rnd hne, List.map_cons, Spec.Rrl.eager]
+    rw [bucketRun_rel hv key cat rest _ _ now (rel_create hv key cat now) (Nat.le_refl _) hmono.2]
+    simp [verdicts, verdict]
+
+/-- the critical section never panics, whatever the bucket holds (no overflow in `rate * window`,
+    in the refill, in `count += 1`; `now − subsec` is representable) -/
+theorem processBucket_no_panic {p : RrlParams} (hv : p.Valid) (key : Key) (cat : Category) (e : Entry)
+    (now : Nat) (rnd : Bool) : processBucket p key cat e now rnd ≠ .panic := by
+  unfold processBucket
+  rw [rateAndLimit_ok hv]
+  have hcap := hv.cap_u32 cat
+  have hm := Nat.mod_le (now - e.last_refill) NANOS_PER_SEC
+  by_cases hk : e.key = key
+  · simp only [hk, if_true]
+    by_cases hs : now - e.last_refill ≥ NANOS_PER_SEC
+    · have hsub : (now - e.last_refill) % NANOS_PER_SEC ≤ now := by omega
+      simp only [hs, hsub, if_true]
+      split
+      · split <;> simp
+      · split
+        · simp
+        · omega
+    · simp only [hs, if_false]
+      split
+      · split <;> simp
+      · split
+        · simp
+        · omega
+  · simp [hk]
+
+theorem processResponse_no_panic (rs : RandomState) (R : Rrl) (hv : R.params.Valid) (now : Nat)
+    (rnd : Bool) (c : Context) (hwf : subjectToRrl c = true → c.WF) :
+    processResponse rs R now rnd c ≠ .panic := by
+  by_cases hs : subjectToRrl c = true
+  · cases hb : processBucket R.params (keyFn rs R.params c) (keyFn rs R.params c).category
+        (R.buckets (bucketIdx rs R.params (keyFn rs R.params c))) now rnd with
+    | panic => exact absurd hb (processBucket_no_panic hv _ _ _ _ _)
+    | err x => exact nomatch x
+    | ok r =>
+      rw [processResponse_subject rs R now rnd c hs (hwf hs) hv.size_pos r.1 r.2 hb]
+      simp
+  · rw [processResponse_not_subject rs R now rnd c hs]
+    simp
+
+theorem processBucket_action {p : RrlParams} {key : Key} {cat : Category} {e e' : Entry} {now : Nat}
+    {rnd : Bool} {a : Action} (h : processBucket p key cat e now rnd = .ok (e', a)) :
+    (a = .Slip → shouldSlip p rnd = true) ∧ (a = .Drop → shouldSlip p rnd = false) := by
+  unfold processBucket at h
+  by_cases hk : e.key = key
+  · simp only [hk, if_true] at h
+    cases hr : rateAndLimitForCategory p cat with
+    | panic => simp [hr] at h
+    | err x => exact nomatch x
+    | ok rl =>
+      obtain ⟨rate, limit⟩ := rl
+      simp only [hr] at h
+      generalize (ite (NANOS_PER_SEC ≤ now - e.last_refill) _ _ : Out Empty Entry) = X at h
+      cases X with
+      | panic => simp at h
+      | err x => exact nomatch x
+      | ok entry =>
+        simp only at h
+        by_cases hc : entry.count ≥ limit
+        · simp only [hc, if_true] at h
+          cases hsl : shouldSlip p rnd <;> simp only [hsl, if_true, Bool.false_eq_true, if_false, Out.ok.injEq, Prod.mk.injEq] at h <;>
+            obtain ⟨_, rfl⟩ := h <;> simp
+        · simp only [hc, if_false] at h
+          by_cases h1 : entry.count + 1 ≤ U32_MAX
+          · simp only [h1, if_true, Out.ok.injEq, Prod.mk.injEq] at h
+            obtain ⟨_, rfl⟩ := h
+            simp
+          · simp [h1] at h
+  · simp only [hk, if_false, Out.ok.injEq, Prod.mk.injEq] at h
+    obtain ⟨_, rfl⟩ := h
+    simp
+
+/-- shape of the outcome: what `process_response` may do to a context -/
+theorem processResponse_shape (rs : RandomState) (R : Rrl) (now : Nat) (rnd : Bool) (c : Context)
+    (R' : Rrl) (c' : Context) (h : processResponse rs R now rnd c = .ok (R', c')) :
+    (¬ subjectToRrl c = true ∧ R' = R ∧ c' = c) ∨
+    (subjectToRrl c = true ∧ ∃ a, c' = applyAction c a ∧
+      (a = .Slip → shouldSlip R.params rnd = true) ∧ (a = .Drop → shouldSlip R.params rnd = false)) := by
+  by_cases hs : subjectToRrl c = true
+  · right
+    refine ⟨hs, ?_⟩
+    unfold processResponse at h
+    simp only [hs, Bool.not_true, Bool.false_eq_true, if_false] at h
+    cases hk : keyOf rs R.params c with
+    | panic => simp [hk] at h
+    | err x => exact nomatch x
+    | ok key =>
+      simp only [hk] at h
+      by_cases hz : R.params.size = 0
+      · simp [hz] at h
+      · simp only [hz, if_false] at h
+        cases hb : processBucket R.params key key.category (R.buckets (rs.hashKey key % R.params.size)) now rnd with
+        | panic => simp [hb] at h
+        | err x => exact nomatch x
+        | ok r =>
+          obtain ⟨e, a⟩ := r
+          simp only [hb, Out.ok.injEq, Prod.mk.injEq] at h
+          refine ⟨a, h.2.symm, ?_, ?_⟩
+          · exact (processBucket_action hb).1
+          · exact (processBucket_action hb).2
+  · left
+    rw [processResponse_not_subject rs R now rnd c hs] at h
+    cases h
+    exact ⟨hs, rfl, rfl⟩
 
 end QV.Rrl
